@@ -1,8 +1,32 @@
 import GB.Base.Proto
+import GB.C06.Hist
+import GB.C14.Spec
 namespace GB.C14
 open GB GB.Proto
 
-/-- stub: replaced when the C14 slice is built -/
-def handle : Handler := fun _ _ => "BAD c14 unimplemented"
+def showParse : Option (Bytes × Bytes) → String
+  | none => "0 x x"
+  | some (svc, m) => s!"1 {toHex svc} {toHex m}"
+
+/-- area c14:
+    `parse <hex> => <ok> <svchex> <methodhex>`   routing.parseRPCName
+    `hist …`                                      claim histories probed through every request form -/
+def handle : Handler
+  | ["parse", hx], out =>
+    match parseHex hx with
+    | none => "BAD hex"
+    | some s =>
+      let impl := " ".intercalate out
+      let model := showParse (parseRPCName s)
+      let spec := showParse (GB.C06.Hist.specParse s)
+      let br := match parseRPCName s with
+        | none => "b=malformed"
+        | some (svc, m) => if svc.isEmpty || m.isEmpty then "b=empty-part" else if m.contains slash then "b=slash-in-method" else "b=plain"
+      let nt := if s.contains slash then " nt" else ""
+      if impl ≠ spec then s!"VIOL parse impl={impl} spec={spec}"
+      else if impl ≠ model then s!"DIFF model={model}"
+      else s!"OK{nt} {br}"
+  | "hist" :: inp, out => GB.C06.Hist.judgeHist inp out
+  | _, _ => "BAD c14 line"
 
 end GB.C14
